@@ -14,6 +14,9 @@ def install_audit():
 
     def run(self, op):
         ev, io_ = audit.record(lambda: orig(self, op))
+        lnk = os.path.join(self.base, "_lnk")
+        # paths spelled through the harness's own symbolic link denote the same files
+        ev = [tuple((self.base + x[len(lnk):]) if isinstance(x, str) and (x == lnk or x.startswith(lnk + os.sep)) else x for x in e) for e in ev]
         if io_ is not None:
             # keep only events below the scenario base that the harness itself did not cause (the -ii temp file)
             io_["audit"] = [e for e in ev if any(isinstance(x, str) and (x.startswith(self.base) or not x.startswith("/")) for x in e[1:2]) and not any(isinstance(x, str) and x == self.iifile for x in e[1:])]
@@ -79,6 +82,8 @@ def monitor(sc, res):
                 name = p.rsplit("/", 1)[-1]
                 if not O.within(h, at):
                     fails.append({"what": f"{desc} touched {p!r} outside its scope", "replay": sc})
+                if name == "ascmhl_chain.xml.tmp" and p in ab and p not in aa:
+                    continue  # the chain writer's own temporary name: a stale one is consumed by the next write
                 if p in ab and name != "ascmhl_chain.xml":
                     fails.append({"what": f"{desc} modified existing file {p!r}", "replay": sc})
                 if p not in ab and not (name == "ascmhl_chain.xml" or re.match(r"^\d{4,}_.*\.mhl$", name)):
@@ -100,6 +105,13 @@ def run(ctx):
         # add hash / flatten / verify -pl so that every command kind occurs
         if rnd.random() < 0.5:
             sc["ops"] += [{"op": "flatten", "at": "", "dest_rel": rnd.random() < 0.5}, {"op": "verifypl", "at": ""}]
+        if rnd.random() < 0.3:
+            # leftovers of an interrupted create inside the ascmhl folder: no command but a later create may replace
+            # its own temporary files, and read-only commands leave them alone
+            k = next((i for i, o in enumerate(sc["ops"]) if o["op"] == "create" and not o.get("at")), None)
+            if k is not None:
+                stale = [{"op": "write", "path": "ascmhl/0099_stale_2026-01-01_000000Z.mhl.tmp", "data": "<hashlist"}, {"op": "write", "path": "ascmhl/ascmhl_chain.xml.tmp", "data": ""}]
+                sc["ops"] = sc["ops"][: k + 1] + stale + [{"op": "verify", "at": ""}, {"op": "info", "at": ""}, {"op": "diff", "at": ""}, {"op": "verifydh", "at": ""}] + sc["ops"][k + 1 :]
         if rnd.random() < 0.3:
             # read-only commands on a tree that has no history yet
             sc["ops"] = [{"op": "verify", "at": ""}, {"op": "verifydh", "at": ""}, {"op": "diff", "at": ""}, {"op": "info", "at": ""}, {"op": "flatten", "at": ""}] + sc["ops"]
